@@ -38,6 +38,8 @@ pub enum Case {
     Fmt { inner: Box<Case>, mode: u8, base: u8 },
     /// the reply for a substance, bare or converted to `[k] unit`: every property it lists
     Subst { name: String, target: Option<(u32, String)> },
+    /// a target that takes a root of a power of a unit: `c u -> (u^n)^(1|n)`
+    RootTarget { c: u32, unit: String, n: u8, k: u8 },
     /// `a -> t` for two plain constants (a dimensionless target that is only a constant factor)
     ConstTarget { a: (u32, u32), t: (u32, u32), unit: Option<String> },
 }
@@ -93,6 +95,11 @@ impl Case {
                 None => name.clone(),
                 Some((1, u)) => format!("{} -> {}", name, u),
                 Some((k, u)) => format!("{} -> {} {}", name, k, u),
+            },
+            Case::RootTarget { c, unit, n, k } => match k % 3 {
+                0 => format!("{} {} -> ({}^{})^(1|{})", c, unit, unit, n, n),
+                1 => format!("{} {}^2 -> ({}^{})^(2|{})", c, unit, unit, n, n),
+                _ => format!("{} {} -> ({}^{})^(1/{})", c, unit, unit, n, n),
             },
             Case::ConstTarget { a, t, unit } => {
                 let n = |x: &(u32, u32)| if x.1 <= 1 { format!("{}", x.0) } else { format!("{}|{}", x.0, x.1) };
@@ -612,6 +619,66 @@ pub fn check(env: &Env, case: &Case, st: &mut Stats) -> CaseResult {
             mark(st, any_differs && !reply.properties.is_empty(), &format!("{} => {} properties", text, reply.properties.len()));
             Ok(())
         }
+        Case::RootTarget { unit, k, .. } => {
+            if unusable(unit).is_some() {
+                st.excluded("name not usable bare in a query");
+                return Ok(());
+            }
+            let u = match env.ctx.lookup(unit) {
+                Some(u) => u,
+                None => return Ok(()),
+            };
+            let uq = match number_q(&u) {
+                Some(q) if q.signum() > 0 => q,
+                _ => {
+                    st.excluded("float-valued, zero or negative unit");
+                    return Ok(());
+                }
+            };
+            let _ = uq;
+            st.eval();
+            st.class("root_of_power_target");
+            // the result is a float (a root was taken), so only the unit is judged: the printed
+            // unit must have the dimensionality of the quantity, i.e. it must be there at all
+            let want_dims = dims_pow(&rinkx::dims_of(&u), if k % 3 == 1 { 2 } else { 1 });
+            let parts = match rinkx::eval_line(&env.ctx, &text) {
+                Out::Panic(p) => return fail(env, st, &panic_signature(&p), &text, format!("panicked: {}", p)),
+                Out::Reply(QueryReply::Conversion(c)) => c.value,
+                Out::Reply(r) => return fail(env, st, "root-target-other-reply", &text, format!("{}", r)),
+                Out::Error(e) => {
+                    // refusing a fractional power in a target is a legitimate answer
+                    st.class("root_of_power_target_refused");
+                    let _ = e;
+                    return Ok(());
+                }
+            };
+            let shown = parts.to_string();
+            let names: Vec<(String, i64)> = if let Some(ru) = &parts.raw_unit {
+                ru.iter().map(|(k, v)| (k.to_string(), *v)).collect()
+            } else if let Some(un) = &parts.unit {
+                parse_unit_string(un).unwrap_or_default()
+            } else {
+                vec![]
+            };
+            let mut udims = Dims::new();
+            for (n, p) in &names {
+                match read_name(&env.ctx, &inline_none, n) {
+                    Ok((_, d)) => udims = dims_mul(&udims, &dims_pow(&d, *p), 1),
+                    Err(_) => return fail(env, st, "printed-unit-unreadable", &text, format!("shown `{}`: unit `{}`", shown, n)),
+                }
+            }
+            if udims != want_dims {
+                return fail(
+                    env,
+                    st,
+                    "printed-unit-wrong-dimension",
+                    &text,
+                    format!("shown `{}`: the printed unit has dimensionality {}, the quantity {}", shown, dims_show(&udims), dims_show(&want_dims)),
+                );
+            }
+            mark(st, true, &format!("{} => {}", text, shown));
+            Ok(())
+        }
         Case::ConstTarget { a, t, unit } => {
             if let Some(u) = unit {
                 if unusable(u).is_some() {
@@ -982,6 +1049,15 @@ fn fmt_strategy(pool: Arc<UnitPool>) -> impl Strategy<Value = Case> {
         .prop_map(|(inner, mode, base)| Case::Fmt { inner: Box::new(inner), mode, base })
 }
 
+fn root_target_strategy(pool: Arc<UnitPool>) -> impl Strategy<Value = Case> {
+    (1u32..50, any::<prop::sample::Index>(), 2u8..=4, 0u8..3).prop_map(move |(c, i, n, k)| Case::RootTarget {
+        c,
+        unit: pool.units[i.index(pool.units.len())].name.clone(),
+        n,
+        k,
+    })
+}
+
 fn const_target_strategy(pool: Arc<UnitPool>) -> impl Strategy<Value = Case> {
     (
         (1u32..2000, 1u32..12),
@@ -1097,6 +1173,19 @@ pub fn run(cx: &Cx) -> Report {
         |c| json!({"case": c, "text": c.text()}),
     ));
     rep.mark(cx, "constant-targets");
+
+    let k = known.clone();
+    let p = pool.clone();
+    rep.absorb(par_proptest(
+        cx,
+        "root-targets",
+        cx.tier.pick(6_000, 100_000),
+        move || root_target_strategy(p.clone()),
+        move || mk_env(k.clone()),
+        |env, c, st| check(env, c, st),
+        |c| json!({"case": c, "text": c.text()}),
+    ));
+    rep.mark(cx, "root-targets");
 
     // substances: every property a substance reply shows, bare and converted
     let mut items: Vec<Case> = vec![];
